@@ -297,6 +297,13 @@ Theorem C03_einsum_value :
       (map (fun i => nth i lhs 0) perm) rhs.
 Proof. exact einsum_value. Qed.
 
+(* NOTE (later round): `C03_tensordot_element_full` above, as literally stated for the PRE-REPAIR model
+   `Fermi.f_tensordot` (which unfuses every fused leg, the library's behaviour before fix 704f29b), is false for
+   operands with an already-fused free leg (`C03_tensordot_element_full_is_false` in Props/C03b.v). The statement is
+   PROVED for the current-code model `Fused.f_tensordot2` in all three modes without restriction
+   (`C03_tensordot2_element_all_modes`) and for `Fermi.f_tensordot` on operands whose free legs are not fused
+   (`C03_tensordot_element_all_modes`); `C03_f_tensordot_eq_tensordot2` relates the two models. *)
+
 Print Assumptions C03_phase_perm_is_koszul.
 Print Assumptions C03_phase_perm_none_is_reversal.
 Print Assumptions C03_inv_parity_is_K.
